@@ -225,6 +225,7 @@ class Lib:
 
     def array_store(self, E, d, sl, v, st, node):
         _used(E, "numpy item assignment")
+        v = inf_value(v)
         va = as_array(v, st) if isinstance(v, Ref) else None
 
         def val_at(*r):
@@ -255,6 +256,11 @@ class Lib:
                     mem, _ = membership(E, ia, st)
                     old = d.sel
                     return ArrData(d.shape, lambda i, j: _ite_val(mem(j), v, old(i, j)), kind)
+                if ia is not None and ia.kind == "i" and ia.ndim == 1 and va is not None and va.ndim == 2:
+                    # a[:, idx] = M: column t of M lands in column idx[t] (some occurrence for repeated indices)
+                    mem, wit = membership(E, ia, st)
+                    old = d.sel
+                    return ArrData(d.shape, lambda i, j: _ite_val(mem(j), va.sel(i, wit(j)), old(i, j)), kind)
             raise Unsupported("store " + unparse(node))
         if isinstance(sl, ast.Slice):
             if sl.lower is None and sl.upper is None:
@@ -461,10 +467,15 @@ class Lib:
                 E.axiom(z3.And(r > 0 if lo_open else r >= 0, r < 1))     # instance of: every uniform draw lies in [0,1)
                 return r
             return st.alloc(ArrData((n,), sel, "f"))
-        if name == "choice" and kwargs.get("replace", args[2] if len(args) > 2 else True) is False and args and is_int_like(args[0]):
+        if name == "choice" and "a" in kwargs and not args:
+            args = [kwargs["a"]]
+            kwargs = {k_: v_ for k_, v_ in kwargs.items() if k_ != "a"}
+        src_arr = as_array(args[0], st) if name == "choice" and args and isinstance(args[0], Ref) else None
+        if name == "choice" and kwargs.get("replace", args[2] if len(args) > 2 else True) is False and args and \
+                (is_int_like(args[0]) or (src_arr is not None and src_arr.ndim == 1 and src_arr.kind == "i")):
             # RandomState.choice(n, size=k, p=p, replace=False): k pairwise distinct positions in [0,n), each with p > 0
             # (numpy raises if fewer than k entries of p are non-zero: that path ends the call)
-            n = to_int(args[0])
+            n = to_int(args[0]) if src_arr is None else to_int(src_arr.shape[0])
             size = kwargs.get("size", args[1] if len(args) > 1 else None)
             pa = kwargs.get("p", args[3] if len(args) > 3 else None)
             if size is not None and is_int_like(size):
@@ -481,7 +492,15 @@ class Lib:
                 st.assume(adv >= 0)
                 st.put(ref, RngData(stream, d.pos + adv, d.aux + 1))
                 st.events.append(("draw-other", ref.id, name))
-                return st.alloc(ArrData((k,), lambda i: f(i), "i"))
+                st.assume(k <= n)                 # numpy raises 'Cannot take a larger sample than population' otherwise
+                if src_arr is not None:
+                    res = ArrData((k,), lambda i: src_arr.sel(f(i)), "i")      # choice(a=array): the entries at k distinct positions
+                else:
+                    res = ArrData((k,), lambda i: f(i), "i")
+                res.choice_of = (src_arr, n, k, f)
+                rr = st.alloc(res)
+                st.events.append(("choice", ref.id, rr, n, k))
+                return rr
         if name in ("normal", "randn", "standard_normal", "randint", "choice", "permutation", "shuffle", "multinomial", "dirichlet", "beta", "uniform"):
             adv = fresh("adv", I)
             st.assume(adv >= 1)
@@ -558,6 +577,41 @@ def _join_kind(kind, v):
     if k == "f":
         return "f"
     return kind
+
+
+def forall_trig(vs, body, *cands):
+    """ForAll with alternative triggers: each candidate that is an uninterpreted application mentioning every bound variable becomes
+    one pattern (any of them fires the instantiation); falls back to z3's own choice when none qualifies"""
+    def mentions(term, v):
+        stack, seen = [term], set()
+        while stack:
+            x = stack.pop()
+            if x.get_id() in seen:
+                continue
+            seen.add(x.get_id())
+            if x.eq(v):
+                return True
+            stack.extend(x.children())
+        return False
+    pats = []
+    for c in cands:
+        if is_z3(c) and z3.is_app(c) and c.decl().kind() == z3.Z3_OP_UNINTERPRETED and c.num_args() > 0 and all(mentions(c, v) for v in vs):
+            if not any(c.eq(p_) for p_ in pats):
+                pats.append(c)
+    if not pats:
+        return z3.ForAll(vs, body)
+    return z3.ForAll(vs, body, patterns=pats)
+
+
+POS_INF = z3.Real("+inf")     # infinite floats are opaque real constants: stored, copied and compared for identity only; any
+NEG_INF = z3.Real("-inf")     # arithmetic on them is outside the model (documented assumption 'machine floats as reals')
+
+
+def inf_value(v):
+    """GlobalName np.inf / -np.inf -> a float value; anything else unchanged"""
+    if isinstance(v, GlobalName) and v.name in ("np.inf", "-np.inf", "numpy.inf", "-numpy.inf"):
+        return mk_fv(z3.BoolVal(False), NEG_INF if v.name.startswith("-") else POS_INF)
+    return v
 
 
 class IxTuple(tuple):
@@ -681,7 +735,8 @@ def register_builtins(L):
             if isinstance(d, RngData):
                 return any("RandomState" in x for x in tn)
             if isinstance(d, ObjData):
-                return any(E.repo.has_cls(d.cls) and x in E.repo.mro(d.cls) for x in tn) or d.cls in tn
+                return any(E.repo.has_cls(d.cls) and x in E.repo.mro(d.cls) for x in tn) or d.cls in tn \
+                    or any(x in d.fields.get("__isinstance__", ()) for x in tn)      # stand-in objects declare their base classes
         if isinstance(v, bool) or (is_z3(v) and z3.is_bool(v)):
             return "bool" in tn or "int" in tn
         if isinstance(v, int) or (is_z3(v) and z3.is_int(v)):
@@ -1184,8 +1239,8 @@ def register_builtins(L):
         return st.alloc(r)
 
     @fn("np.append", "np.size", "np.issubdtype", "np.shape", "np.ndim", "np.array_equal", "np.allclose", "np.mean", "np.std",
-        "np.var", "np.dot", "np.matmul", "np.exp", "np.log", "np.abs", "np.sqrt", "np.square", "np.nan_to_num", "np.tile", "np.searchsorted",
-        "np.isin", "np.argsort", "np.sort", "np.stack", "np.vstack", "np.hstack", "np.linalg.norm", "np.average", "np.cumsum", "np.diff",
+        "np.var", "np.dot", "np.matmul", "np.exp", "np.log", "np.abs", "np.sqrt", "np.square", "np.nan_to_num", "np.tile",
+        "np.isin", "np.argsort", "np.stack", "np.vstack", "np.hstack", "np.linalg.norm", "np.average", "np.cumsum", "np.diff",
         "np.clip", "np.round", "np.floor", "np.ceil", "np.prod", "np.eye", "np.diag", "np.outer", "np.einsum", "np.take_along_axis",
         "np.argpartition", "np.delete", "np.meshgrid", "np.linspace", "np.isfinite", "np.isinf", "np.sign", "np.power")
     def _np_pure(E, st, args, kw, node):
@@ -1195,6 +1250,89 @@ def register_builtins(L):
         st.events.append(("call", name, args, kw, r, {a.id: st.heap.get(a.id) for a in list(args) + list(kw.values()) if isinstance(a, Ref)}))
         E.abstracted.add(name + " (pure, result unknown)")
         return r
+
+    @fn("np.union1d")
+    def _np_union1d(E, st, args, kw, node):
+        """np.union1d(a, b) for 1-D integer arrays: strictly increasing, value set = values of a and of b"""
+        a, b = (as_array(x, st) if isinstance(x, Ref) else None for x in args[:2])
+        if a is None or b is None or a.ndim != 1 or b.ndim != 1 or a.kind != "i" or b.kind != "i":
+            return _np_pure(E, st, args, kw, node)
+        _used(E, "np.union1d (1-D int): strictly increasing, exactly the values of both arguments")
+        m, f = fresh("n_union", I), fresh_fn("union", I, I)
+        froma, src = fresh_fn("union_from_a", I, B), fresh_fn("union_src", I, I)
+        pa, pb = fresh_fn("union_pos_a", I, I), fresh_fn("union_pos_b", I, I)
+        t, u = z3.Ints("ut uu")
+        na, nb = to_int(a.shape[0]), to_int(b.shape[0])
+        st.assume(m >= 0, m <= na + nb, m >= na - na, z3.Implies(na + nb > 0, m >= 1))
+        st.assume(z3.ForAll([t, u], z3.Implies(z3.And(0 <= t, t < u, u < m), f(t) < f(u))))
+        st.assume(z3.ForAll([t], z3.Implies(z3.And(0 <= t, t < m), z3.If(froma(t),
+                  z3.And(0 <= src(t), src(t) < na, to_int(a.sel(src(t))) == f(t)), z3.And(0 <= src(t), src(t) < nb, to_int(b.sel(src(t))) == f(t))))))
+        st.assume(forall_trig([t], z3.Implies(z3.And(0 <= t, t < na), z3.And(0 <= pa(t), pa(t) < m, f(pa(t)) == to_int(a.sel(t)))), pa(t), to_int(a.sel(t))))
+        st.assume(forall_trig([t], z3.Implies(z3.And(0 <= t, t < nb), z3.And(0 <= pb(t), pb(t) < m, f(pb(t)) == to_int(b.sel(t)))), pb(t), to_int(b.sel(t))))
+        r = ArrData((m,), lambda i: f(i), "i")
+        r.strictly_increasing = True
+        r.union_of = (a, b, froma, src, pa, pb)
+        return st.alloc(r)
+
+    @fn("np.sort")
+    def _np_sort(E, st, args, kw, node):
+        """np.sort of a 1-D integer array: non-decreasing rearrangement (a bijection of positions)"""
+        a = as_array(args[0], st) if isinstance(args[0], Ref) else None
+        if a is None or a.ndim != 1 or a.kind != "i" or kw or len(args) > 1:
+            return _np_pure(E, st, args, kw, node)
+        if getattr(a, "strictly_increasing", False):
+            r = ArrData(a.shape, a.sel, a.kind)              # already sorted: equal contents
+            r.__dict__.update({k: v for k, v in a.__dict__.items() if k in ("strictly_increasing", "union_of")})
+            return st.alloc(r)
+        _used(E, "np.sort (1-D int): non-decreasing, a bijective rearrangement of the positions")
+        n = to_int(a.shape[0])
+        f, sg, sgi = fresh_fn("sorted", I, I), fresh_fn("sort_src", I, I), fresh_fn("sort_dst", I, I)
+        t, u = z3.Ints("st_ su_")
+        st.assume(z3.ForAll([t, u], z3.Implies(z3.And(0 <= t, t < u, u < n), f(t) <= f(u))))
+        st.assume(forall_trig([t], z3.Implies(z3.And(0 <= t, t < n), z3.And(0 <= sg(t), sg(t) < n, f(t) == to_int(a.sel(sg(t))), sgi(sg(t)) == t)), sg(t), f(t)))
+        st.assume(forall_trig([t], z3.Implies(z3.And(0 <= t, t < n), z3.And(0 <= sgi(t), sgi(t) < n, sg(sgi(t)) == t, f(sgi(t)) == to_int(a.sel(t)))),
+                              sgi(t), to_int(a.sel(t))))
+        r = ArrData((n,), lambda i: f(i), "i")
+        r.sort_of = (a, sg, sgi)
+        return st.alloc(r)
+
+    @fn("np.searchsorted")
+    def _np_searchsorted(E, st, args, kw, node):
+        """np.searchsorted(S, v) (side='left') for a non-decreasing 1-D integer S: r[t] = first position whose entry is >= v[t]"""
+        S = as_array(args[0], st) if isinstance(args[0], Ref) else None
+        v = as_array(args[1], st) if len(args) > 1 and isinstance(args[1], Ref) else None
+        if S is None or v is None or S.ndim != 1 or v.ndim != 1 or S.kind != "i" or v.kind != "i" or kw or len(args) > 2:
+            return _np_pure(E, st, args, kw, node)
+        _used(E, "np.searchsorted (1-D int, left): S[r-1] < v <= S[r]")
+        f = fresh_fn("searchsorted", I, I)
+        t = z3.Int("ss_t")
+        n, k = to_int(S.shape[0]), to_int(v.shape[0])
+        st.assume(z3.ForAll([t], z3.Implies(z3.And(0 <= t, t < k), z3.And(
+            0 <= f(t), f(t) <= n,
+            z3.Implies(f(t) > 0, to_int(S.sel(f(t) - 1)) < to_int(v.sel(t))),
+            z3.Implies(f(t) < n, to_int(v.sel(t)) <= to_int(S.sel(f(t))))))))
+        if getattr(S, "strictly_increasing", False):
+            # consequence for a strictly increasing S (lemma 'searchsorted_hit', proved in contracts/lemmas.py from the clause above and
+            # strict monotonicity): a value that occurs in S is found at its position
+            pq = z3.Int("ss_p")
+            st.assume(z3.ForAll([t, pq], z3.Implies(z3.And(0 <= t, t < k, 0 <= pq, pq < n, to_int(S.sel(pq)) == to_int(v.sel(t))), f(t) == pq)))
+        r = ArrData((k,), lambda i: f(i), "i")
+        r.searchsorted_of = (S, v)
+        return st.alloc(r)
+
+    @fn("ceil", "math.ceil")
+    def _ceil(E, st, args, kw, node):
+        """math.ceil: the least integer not below the argument"""
+        v = args[0]
+        if isinstance(v, (int, float)) and not isinstance(v, bool):
+            import math
+            return math.ceil(v)
+        if is_int_like(v):
+            return to_int(v)
+        nan, x = to_real(v)
+        c = fresh("ceil", I)
+        st.assume(z3.ToReal(c) >= x, z3.ToReal(c) < x + 1)
+        return c
 
     @fn("np.ix_")
     def _np_ix(E, st, args, kw, node):
